@@ -1,19 +1,19 @@
 #!/bin/sh
-# Demonstration (not a MANIFEST check): every patch under /verif/seeded/*/patch.diff and every
-# revert-of-a-fix under /verif/seeded/_fixed_defects must make the quick check of its property exit 1,
-# and the unchanged tree must exit 0.   usage: selftest/regress.sh <patch> <PROPERTY-ID> [...]
-# The patch is applied to /repo's working tree and undone straight afterwards.
+# Demonstration (not a MANIFEST check): a seeded change (or the revert of a repaired defect) must make the quick
+# check of its property exit 1.   usage: selftest/regress.sh <patch> <PROPERTY-ID> [...]
+# The patch is applied to a scratch worktree of /repo's HEAD (removed afterwards); the checks are pointed at it
+# with VERIF_REPO, so /repo itself and anything else running against it are not disturbed.
 set -u
 P="$1"; shift
-cd /repo || exit 2
-git diff --quiet || { echo "repo working tree not clean"; exit 2; }
-git apply "$P" || { echo "patch does not apply: $P"; exit 2; }
-trap 'git -C /repo checkout -- . ; git -C /repo clean -fdq' EXIT INT TERM
+WT=$(mktemp -d /tmp/regress-XXXXXX); rmdir "$WT"
+git -C /repo worktree add -q "$WT" HEAD || exit 2
+trap 'git -C /repo worktree remove --force "$WT" 2>/dev/null; rm -rf "$WT"' EXIT INT TERM
+git -C "$WT" apply "$P" || { echo "patch does not apply: $P"; exit 2; }
 rc_all=0
 for ID in "$@"; do
-  out=$(cd /verif && ./check "$ID" 2>&1); rc=$?
-  echo "== $P on $ID: exit $rc"
-  echo "$out" | grep -E "VIOLATION|site=|KNOWN|MACHINERY" | head -6
+  out=$(cd /verif && VERIF_REPO="$WT" ./check "$ID" 2>&1); rc=$?
+  echo "== $(basename $(dirname "$P"))/$(basename "$P") on $ID: exit $rc"
+  echo "$out" | grep -E "VIOLATION|site=|KNOWN|MACHINERY" | cut -c1-300 | head -6
   [ $rc -eq 1 ] || rc_all=1
 done
 exit $rc_all
